@@ -2,10 +2,12 @@ module verif/harness
 
 go 1.18
 
-require git.sr.ht/~rockorager/vaxis v0.0.0
+require (
+	git.sr.ht/~rockorager/vaxis v0.0.0
+	github.com/containerd/console v1.0.3
+)
 
 require (
-	github.com/containerd/console v1.0.3 // indirect
 	github.com/mattn/go-runewidth v0.0.14 // indirect
 	github.com/mattn/go-sixel v0.0.5 // indirect
 	github.com/rivo/uniseg v0.4.4 // indirect
